@@ -283,3 +283,95 @@ void h_add_flush_events(void)
 	if (g_pos >= g_file_len + rthread.evlen - 12 && g_pos < g_file_len + rthread.evlen) REACH("observer on the second marker");
 	if (g_pos < g_hlen) REACH("observer on an earlier byte");
 }
+
+/* ------------------------------------------------------------ jumbo events */
+/* replaceable contract of ovni_payload_add (no ghost bindings): enforced in its own group */
+#define PAYCELL_R(k) (!((k) < size) || ev->payload.u8[EV_PSIZE(__CPROVER_old(ev->header.flags)) + (k)] == buf[(k)])
+void cr_ovni_payload_add(struct ovni_ev *ev, const uint8_t *buf, int size)
+__CPROVER_requires(EV_OK(ev) && (size < 0 || size > 16 || __CPROVER_is_fresh(buf, size)))
+__CPROVER_assigns(g_died, ev->header.flags, ev->payload)
+__CPROVER_ensures(!(__CPROVER_old(ev->header.flags) & OVNI_EV_JUMBO) && size >= 2 && EV_PSIZE(__CPROVER_old(ev->header.flags)) + size <= 16)
+__CPROVER_ensures(EV_PSIZE(ev->header.flags) == EV_PSIZE(__CPROVER_old(ev->header.flags)) + size)
+__CPROVER_ensures((ev->header.flags & 0xf0) == (__CPROVER_old(ev->header.flags) & 0xf0))
+__CPROVER_ensures(PAYCELL_R(0) && PAYCELL_R(1) && PAYCELL_R(2) && PAYCELL_R(3) && PAYCELL_R(4) && PAYCELL_R(5) && PAYCELL_R(6) && PAYCELL_R(7))
+__CPROVER_ensures(PAYCELL_R(8) && PAYCELL_R(9) && PAYCELL_R(10) && PAYCELL_R(11) && PAYCELL_R(12) && PAYCELL_R(13) && PAYCELL_R(14) && PAYCELL_R(15))
+/* earlier payload bytes are kept (observer g_pk) */
+__CPROVER_ensures(!((g_pk & 15u) < (unsigned) EV_PSIZE(__CPROVER_old(ev->header.flags))) || ev->payload.u8[g_pk & 15u] == __CPROVER_old(ev->payload.u8[g_pk & 15u]))
+;
+void h_cr_ovni_payload_add(void)
+{
+	struct ovni_ev *ev; const uint8_t *buf; int size;
+	ovni_payload_add(ev, buf, size);
+	REACH("payload_add returns");
+	if (size == 4) REACH("four bytes added");
+}
+
+/* memcpy: ASSUMED contract (trusted: libc memcpy copies n bytes, regions disjoint),
+ * stated as the instance of  forall k<n. dst[k]==src[k]  at the cell of evbuf that
+ * holds stream position g_pos -- the only cell the stream contracts observe. */
+#define OBS_IN(dst, n) (__CPROVER_same_object((dst), rthread.evbuf) && g_pos >= g_file_len && \
+	g_pos - g_file_len >= (unsigned long) __CPROVER_POINTER_OFFSET(dst) && \
+	g_pos - g_file_len - (unsigned long) __CPROVER_POINTER_OFFSET(dst) < (n))
+void *cr_memcpy(void *dst, const void *src, size_t n)
+__CPROVER_requires(n == 0 || (__CPROVER_is_fresh(dst, n) && __CPROVER_is_fresh(src, n)))
+__CPROVER_assigns(__CPROVER_object_upto(dst, n))
+__CPROVER_ensures(__CPROVER_return_value == dst)
+__CPROVER_ensures(!OBS_IN(dst, n) || rthread.evbuf[g_pos - g_file_len] ==
+	((const unsigned char *) src)[g_pos - g_file_len - (unsigned long) __CPROVER_POINTER_OFFSET(dst)])
+;
+
+/* ovni_ev_add_jumbo(ev, buf, n): returns only if the event, its data and the two
+ * flush markers fit (16 + n + 24 < capacity) and ev had no payload; appends
+ * {flags|jumbo|size nibble 3, mcv, clock, u32 n} ++ buf[0..n), flushing first (and then
+ * adding the markers after the data) exactly when evlen + 16 + n >= capacity. */
+#define JB_TOTAL     (16UL + (unsigned long) bufsize)
+#define JB_WILLFLUSH (rthread.evlen + JB_TOTAL >= g_cap)
+#define JB_FLUSHED   (__CPROVER_old(rthread.evlen) + JB_TOTAL >= g_cap)
+#define JB_APPLEN    (JB_TOTAL + (JB_FLUSHED ? 24UL : 0UL))
+#define JB_APP(r) ((r) == 0 ? (unsigned long) ((__CPROVER_old(ev->header.flags) & 0xf0) | 0x13) : \
+	(r) < 12 ? (unsigned long) ((const unsigned char *) ev)[(r)] : \
+	(r) < 16 ? (((unsigned long) bufsize >> (8 * ((r) - 12))) & 0xffUL) : \
+	(r) < JB_TOTAL ? (unsigned long) buf[(r) - 16] : \
+	(r) < JB_TOTAL + 12 ? MARK_BYTE((r) - JB_TOTAL, '[', g_clk_prev) : MARK_BYTE((r) - JB_TOTAL - 12, ']', g_now))
+#define JB_CONTRACT \
+RT_WF_REQ \
+__CPROVER_requires(EV_OK(ev) && !(ev->header.flags & OVNI_EV_JUMBO) && (bufsize == 0 || __CPROVER_is_fresh(buf, bufsize))) \
+__CPROVER_requires(g_file_len < (1UL << 61)) \
+__CPROVER_requires(HINV) \
+__CPROVER_assigns(rthread.evlen, g_died, ev->header.flags, ev->payload) \
+__CPROVER_assigns(!JB_WILLFLUSH: __CPROVER_object_upto(rthread.evbuf + rthread.evlen, JB_TOTAL)) \
+__CPROVER_assigns(JB_WILLFLUSH: g_file_len, g_byte, g_now, g_clk_prev) \
+__CPROVER_assigns(JB_WILLFLUSH && JB_TOTAL + 24 < g_cap: __CPROVER_object_upto(rthread.evbuf, JB_TOTAL + 24)) \
+__CPROVER_ensures((__CPROVER_old(ev->header.flags) & 0x1f) == 0 && JB_TOTAL + 24 < g_cap) \
+__CPROVER_ensures(g_file_len + rthread.evlen == OLD_LLEN + JB_APPLEN) \
+__CPROVER_ensures(g_file_len == __CPROVER_old(g_file_len) + (JB_FLUSHED ? __CPROVER_old(rthread.evlen) : 0UL)) \
+__CPROVER_ensures(rthread.evlen < g_cap) \
+__CPROVER_ensures(!IN_APP(JB_APPLEN) || (unsigned long) L_BYTE == JB_APP(g_pos - OLD_LLEN)) \
+__CPROVER_ensures(HINV) \
+__CPROVER_ensures(!JB_FLUSHED || (__CPROVER_old(g_now) <= g_clk_prev && g_clk_prev <= g_now && g_now < (1UL << 62)))
+
+void cr_ovni_ev_add_jumbo(struct ovni_ev *ev, const uint8_t *buf, uint32_t bufsize)
+JB_CONTRACT
+;
+unsigned w_bufsize;
+WITNESS(ovni_ev_add_jumbo);
+void c_ovni_ev_add_jumbo(struct ovni_ev *ev, const uint8_t *buf, uint32_t bufsize)
+JB_CONTRACT
+__CPROVER_requires(WBIND(ovni_ev_add_jumbo, w_cap == g_cap && w_evlen0 == rthread.evlen && w_flen0 == g_file_len && w_flags == ev->header.flags && w_bufsize == bufsize))
+;
+void h_ovni_ev_add_jumbo(void)
+{
+	struct ovni_ev *ev; const uint8_t *buf; uint32_t bufsize;
+	WITNESS_ON(ovni_ev_add_jumbo); WITNESS_OFF(flush_evbuf);
+	ovni_ev_add_jumbo(ev, buf, bufsize);
+	REACH("ovni_ev_add_jumbo returns");
+	unsigned long total = 16UL + w_bufsize;
+	int flushed = w_evlen0 + total >= w_cap;
+	if (flushed) REACH("jumbo flushed first");
+	if (!flushed) REACH("jumbo did not flush");
+	if (w_bufsize == 0) REACH("jumbo with no data");
+	if (total + 24 == w_cap - 1) REACH("largest admitted jumbo");
+	if (w_cap == (unsigned long) REAL_MAX_EV_BUF) REACH("the real 2 MiB capacity is admitted");
+	if (g_pos >= w_flen0 + w_evlen0 + 16 && g_pos < w_flen0 + w_evlen0 + total) REACH("observer inside the jumbo data");
+	if (flushed && g_pos >= w_flen0 + w_evlen0 + total) REACH("observer on the markers after the jumbo");
+}
